@@ -18,7 +18,20 @@ set_option linter.unusedVariables false
 namespace Lcapy.C16
 open Lcapy.Cache
 
-/-! ## abstraction -/
+/-! ## abstraction
+
+  MODEL-STRUCTURAL theorems (`abstraction`, `history_abstraction`, `memos_never_matter`, `query_pure`, `derive_pure`,
+  `query_erasable`): they hold of EVERY configuration because of the shape of `Model/Cache.lean` -- a query writes memo
+  fields only, every operation acts on one instance, the next element dictionary and node table are computed from the
+  current ones.  They are the reason why `Inv` need not mention memo contents when elements change, and they are used by
+  `query_transparent` and `failed_op_atomic`, which DO need the invariant.  By themselves they say nothing about lcapy;
+  "a query of lcapy is pure" rests on
+    * Props/C16PureCode.lean `read_only_members_write_only_memo_state_partial` / `query_pure_current` (decide over the
+      generated table `memberWrites`: one row per public member of the netlist classes -- every non-mutator writes memo
+      slots only) and Props/C16Tables.lean `every_public_member_has_rows`, `shared_cached_objects_not_mutated`;
+    * the purity oracle (every query twice, then the fixed battery on the same instance, compared with a fresh rebuild)
+      and the structural comparison after every operation.
+-/
 
 /-- the abstract successor state and the exception flag depend on the abstract state only -/
 theorem abstraction (cfg : Config) (w w' : World) (h : w.abs = w'.abs) (op : Op) :
